@@ -909,6 +909,10 @@ def gen_c19(read, num):
     return lines, broken
 
 
+C07_CONN_OPS = ["send_message", "send_to_name", "link", "unlink", "monitor", "demonitor"]
+C07_NODE_FNS = ["send_remote", "link", "unlink", "monitor", "demonitor"]
+
+
 STATE_STRUCTS = [
     ("crates/edp_client/src/connection.rs", "Connection"),
     ("crates/edp_client/src/transport.rs", "FramedTransport"),
@@ -1007,6 +1011,7 @@ def gen_state(read, num):
     lines.append(f"def PROCESS_WIDE_STATE : List String := {strs(statics)}")
     lines.append("")
     return lines, broken
+
 
 
 def _struct_fields(src, name):
@@ -1978,10 +1983,455 @@ def _struct_field_names(src, name):
     return re.findall(r"pub\s+([a-z_0-9]+)\s*:", body)
 
 
+def gen_c07(read, num):
+    """C07 part: from connection.rs the framing constants, the table of the six send-side operations (state gate, the
+    `ControlMessage` variant built, payload or not), the branches of `send_control_message` as sequences of guard / write /
+    yield-point / flush steps (every write must sit between `FrameWrite::begin` and `frame.complete()`), how the
+    distribution-header buffer is put together, the mode decision and what `FrameWrite::drop` does; from encoder.rs the
+    limits of `encode_with_dist_header_multi`; from node.rs the remote branch of each node-level operation (what is drawn
+    from the node's counters, the table lookup, the one lock, the one `Connection` call)."""
+    broken = []
+    lines = []
+    consts = {}
+    ops = []
+    branches = []
+    hdr_buf = []
+    hdr_enc = []
+    len_exprs = []
+    mode_flag = ""
+    drop_steps = []
+    src = read("crates/edp_client/src/connection.rs")
+    if src is None:
+        broken.append("connection.rs missing")
+    else:
+        for name in ("VERSION_TAG", "DIST_HEADER", "PASS_THROUGH"):
+            m = re.search(r"const\s+" + name + r"\s*:\s*u8\s*=\s*([0-9_]+)\s*;", src)
+            if not m:
+                broken.append(f"connection.rs: const {name}: u8 = <n>; not found")
+            else:
+                consts[name] = num(m.group(1))
+        for fn in C07_CONN_OPS:
+            body = _fn_body(src, r"pub\s+async\s+fn\s+" + fn + r"\s*\(")
+            if body is None:
+                broken.append(f"connection.rs: pub async fn {fn} not found")
+                continue
+            b = _strip_ws(body)
+            gated = b.startswith("if!self.is_connected(){returnErr(Error::InvalidState{state:self.state(),});}")
+            mv = re.search(r"letcontrol=ControlMessage::([A-Za-z0-9]+)\{", b)
+            mc = re.search(r"self\.send_control_message\(control,(Some\(message\)|None)\)\.await\}?$", b)
+            if not mv or not mc:
+                broken.append(f"connection.rs {fn}: `let control = ControlMessage::X {{..}}; self.send_control_message(control, Some(message)|None).await` not found")
+                continue
+            if len(re.findall(r"send_control_message\(", b)) != 1 or re.search(r"write_|\.write\(|send_raw", b):
+                broken.append(f"connection.rs {fn}: more than the one call of send_control_message")
+            ops.append((fn, mv.group(1), mc.group(1) != "None", gated))
+        body = _fn_body(src, r"async\s+fn\s+send_control_message\s*\(")
+        if body is None:
+            broken.append("connection.rs: fn send_control_message not found")
+        else:
+            b = _strip_ws(body)
+            m = re.search(r"letuse_pass_through=self\.negotiated_flags\(\)\.as_ref\(\)\.map\(\|f\|!f\.has\(DistributionFlags::([A-Z_0-9]+)\)\)\.unwrap_or\(true\);", b)
+            if not m:
+                broken.append("connection.rs send_control_message: `use_pass_through = negotiated_flags().map(|f| !f.has(FLAG)).unwrap_or(true)` not found")
+            else:
+                mode_flag = m.group(1)
+            tok = re.compile(
+                r"(?P<begin>FrameWrite::begin\(self\))|(?P<stream>frame\.stream\(\)\?)|(?P<complete>frame\.complete\(\))"
+                r"|stream\.(?P<w>write_u32|write_u8|write_all)\(&?(?P<arg>[a-zA-Z_]+)\)"
+                r"|(?P<flush>stream\.flush\(\))|yield_point\(\"(?P<y>[a-z_:]+)\"\)"
+                r"|(?P<other>\.write_[a-z0-9_]+\(|\.write\()")
+            cur = None
+            for m in tok.finditer(b):
+                if m.group("begin"):
+                    if cur is not None:
+                        broken.append("connection.rs send_control_message: FrameWrite::begin before the previous frame.complete()")
+                    cur = ["begin"]
+                    continue
+                if m.group("other"):
+                    broken.append("connection.rs send_control_message: a write the translator does not know: " + m.group("other"))
+                    continue
+                step = ("stream" if m.group("stream") else "complete" if m.group("complete") else "flush" if m.group("flush")
+                        else ("yield:" + m.group("y")) if m.group("y") else m.group("w") + ":" + m.group("arg"))
+                if cur is None:
+                    broken.append(f"connection.rs send_control_message: `{step}` outside FrameWrite::begin .. frame.complete()")
+                    continue
+                cur.append(step)
+                if step == "complete":
+                    branches.append(cur)
+                    cur = None
+            if cur is not None:
+                broken.append("connection.rs send_control_message: a FrameWrite::begin without frame.complete()")
+            if not branches:
+                broken.append("connection.rs send_control_message: no guarded write sequence found")
+            hdr_enc = [f"{f}:{a.replace('&', '').replace('[', '').replace(']', '')}" for f, a in
+                       re.findall(r"letencoded=erltf::(encode_with_dist_header(?:_multi)?)\(([^;]*?)\)\?;", b)]
+            hdr_buf = re.findall(r"letencoded=erltf::encode_with_dist_header(?:_multi)?\([^;]*?\)\?;((?:buf\.put_[a-z0-9]+\([^;]*\);)+)", b)
+            hdr_buf = [re.findall(r"buf\.(put_[a-z0-9]+)\(&?([^;]*)\);", x) for x in hdr_buf]
+            hdr_buf = [[f"{f}:{a}" for f, a in x] for x in hdr_buf]
+            len_exprs = re.findall(r"lettotal_len=([^;]+);letframe_len=Self::frame_length\(total_len\)\?;", b)
+            if len(hdr_enc) != 2 or len(hdr_buf) != 2 or len(len_exprs) != 2:
+                broken.append("connection.rs send_control_message: expected two pass-through length computations and two header-mode encoder calls each followed by buf.put_*")
+        m = re.search(r"implDropforFrameWrite<'_>\{fndrop\(&mutself\)\{if!self\.complete\{((?:self\.connection\.[a-z_]+\.[a-z_]+\(\);)+)\}\}\}", _strip_ws(src))
+        if not m:
+            broken.append("connection.rs: `impl Drop for FrameWrite` closing the connection unless complete not found")
+        else:
+            drop_steps = re.findall(r"self\.connection\.([a-z_]+\.[a-z_]+)\(\);", m.group(1))
+        m = re.search(r"fnframe_length\(len:usize\)->Result<u32>\{u32::try_from\(len\)\.map_err\(\|_\|Error::MessageTooLarge\{", _strip_ws(src))
+        if not m:
+            broken.append("connection.rs: frame_length = u32::try_from(len) or MessageTooLarge not found")
+    enc = read("crates/erltf/src/encoder.rs")
+    max_atoms = 0
+    atom_len_limit = ""
+    if enc is None:
+        broken.append("encoder.rs missing")
+    else:
+        body = _fn_body(enc, r"pub\s+fn\s+encode_with_dist_header_multi\s*\(")
+        if body is None:
+            broken.append("encoder.rs: fn encode_with_dist_header_multi not found")
+        else:
+            b = _strip_ws(body)
+            m = re.search(r"ifatom_set\.len\(\)>([0-9_]+)\{returnErr\(EncodeError::TooManyAtoms", b)
+            if not m:
+                broken.append("encoder.rs encode_with_dist_header_multi: `if atom_set.len() > N { return Err(TooManyAtoms` not found")
+            else:
+                max_atoms = num(m.group(1))
+            m = re.search(r"find\(\|a\|a\.name\.len\(\)>(u16::MAX)asusize\)\{returnErr\(EncodeError::AtomTooLarge", b)
+            if not m:
+                broken.append("encoder.rs encode_with_dist_header_multi: atom length limit u16::MAX not found")
+            else:
+                atom_len_limit = m.group(1)
+    node = read("crates/edp_node/src/node.rs")
+    node_ops = []
+    if node is None:
+        broken.append("node.rs missing")
+    else:
+        tok = re.compile(
+            r"(?P<lookup>self\.connection_handle\(node_name\))|(?P<pid>self\.pid_allocator\.allocate\(\))"
+            r"|(?P<uid>self\.reference_counter\.fetch_add\(1,Ordering::SeqCst\)asu64\+1)|(?P<ctr>self\.reference_counter\.[a-z_]+\()"
+            r"|(?P<ref>self\.make_reference\(\))|(?P<lock>conn\.lock\(\)\.await)|conn_guard\.(?P<call>[a-z_]+)\("
+            r"|(?P<nc>Err\(Error::NodeNotConnected\()|_handle\.(?P<book>add_link|remove_link|add_monitor|remove_monitor)\(")
+        for fn in C07_NODE_FNS:
+            body = _fn_body(node, r"(?:pub\s+)?async\s+fn\s+" + fn + r"\s*(?:<[^>]*>)?\s*\(\s*&self")
+            if body is None:
+                broken.append(f"node.rs: async fn {fn}(&self, ..) not found")
+                continue
+            steps = []
+            for m in tok.finditer(_strip_ws(body)):
+                steps.append("lookup" if m.group("lookup") else "draw:pid" if m.group("pid") else "draw:unlink_id+1" if m.group("uid")
+                             else "counter:other" if m.group("ctr") else "draw:ref" if m.group("ref") else "lock" if m.group("lock")
+                             else ("call:" + m.group("call")) if m.group("call") else "not_connected" if m.group("nc")
+                             else "book:" + m.group("book"))
+            node_ops.append((fn, steps))
+        if "connections.insert(remote_node.clone(),Arc::new(Mutex::new(conn)));" not in _strip_ws(node) or \
+                _strip_ws(node).find("conn.connect().await?;") > _strip_ws(node).find("connections.insert(remote_node.clone(),Arc::new(Mutex::new(conn)));") or \
+                "conn.connect().await?;" not in _strip_ws(node):
+            broken.append("node.rs connect: the connection is no longer inserted into the table after `conn.connect().await?`")
+
+    def strs(xs):
+        return "[" + ", ".join('"' + x + '"' for x in xs) + "]"
+
+    lines.append("/-- framing constants of connection.rs -/")
+    for name in ("VERSION_TAG", "DIST_HEADER", "PASS_THROUGH"):
+        lines.append(f"def C07_{name} : Nat := {consts.get(name, 0)}")
+    lines.append("/-- the six send-side operations of `Connection` (connection.rs): name, `ControlMessage` variant built, whether a")
+    lines.append("payload is handed to `send_control_message`, whether the body starts with the `is_connected()` gate -/")
+    lines.append("def C07_CONN_OPS : List (String × String × Bool × Bool) := [" + ", ".join(
+        f'("{f}", "{v}", {"true" if p else "false"}, {"true" if g else "false"})' for f, v, p, g in ops) + "]")
+    lines.append("/-- the flag whose absence from the negotiated flags selects pass-through framing in `send_control_message` -/")
+    lines.append(f'def C07_HEADER_MODE_FLAG : String := "{mode_flag}"')
+    lines.append("/-- the guarded write sequences of `send_control_message` in source order (pass-through with payload, pass-through")
+    lines.append("control only, distribution header): guard, writes with their argument, H3 yield points, flush, completion -/")
+    lines.append("def C07_SEND_BRANCHES : List (List String) := [" + ", ".join(strs(x) for x in branches) + "]")
+    lines.append("/-- `total_len` of the two pass-through branches -/")
+    lines.append(f"def C07_FRAME_LEN_EXPRS : List String := {strs(len_exprs)}")
+    lines.append("/-- header mode: the encoder call of each branch and how the single buffer is put together -/")
+    lines.append(f"def C07_HEADER_ENCODERS : List String := {strs(hdr_enc)}")
+    lines.append("def C07_HEADER_BUFFER : List (List String) := [" + ", ".join(strs(x) for x in hdr_buf) + "]")
+    lines.append("/-- what `FrameWrite::drop` does to the connection when the frame was not completed -/")
+    lines.append(f"def C07_INCOMPLETE_FRAME_ACTIONS : List String := {strs(drop_steps)}")
+    lines.append("/-- limits of `encode_with_dist_header_multi` (encoder.rs): atoms per header, atom length -/")
+    lines.append(f"def C07_HEADER_MAX_ATOMS : Nat := {max_atoms}")
+    lines.append(f'def C07_HEADER_ATOM_LEN_LIMIT : String := "{atom_len_limit}"')
+    lines.append("/-- node.rs: the steps of each node-level operation that concern the connection, in source order (bookkeeping on")
+    lines.append("local process handles, what is drawn from the node's counters, table lookup, lock, the `Connection` call) -/")
+    lines.append("def C07_NODE_OPS : List (String × List String) := [" + ", ".join(f'("{f}", {strs(st)})' for f, st in node_ops) + "]")
+    lines.append("")
+    return lines, broken
+
+
+def _match_arms(body, scrutinee):
+    """arms of the first `match <scrutinee> {` in body as (pattern text, arm text); None if not found"""
+    m = re.search(r"match\s+" + scrutinee + r"\s*\{", body)
+    if not m:
+        return None
+    i = m.end()
+    arms = []
+    n = len(body)
+    while i < n:
+        while i < n and body[i] in " \t\r\n,":
+            i += 1
+        if i >= n or body[i] == "}":
+            break
+        j = body.find("=>", i)
+        if j < 0:
+            return None
+        pat = body[i:j]
+        k = j + 2
+        while k < n and body[k] in " \t\r\n":
+            k += 1
+        if k < n and body[k] == "{":
+            depth = 0
+            e = k
+            while e < n:
+                if body[e] == "{":
+                    depth += 1
+                elif body[e] == "}":
+                    depth -= 1
+                    if depth == 0:
+                        break
+                e += 1
+            arms.append((pat, body[k + 1:e]))
+            i = e + 1
+        else:
+            depth = 0
+            e = k
+            while e < n:
+                c = body[e]
+                if c in "({[":
+                    depth += 1
+                elif c in ")}]":
+                    if depth == 0:
+                        break
+                    depth -= 1
+                elif c == "," and depth == 0:
+                    break
+                e += 1
+            arms.append((pat, body[k:e]))
+            i = e
+    return arms
+
+
+def gen_c14(read, num):
+    """C14: the atom traversal of the header encoder (per-variant arms of `collect_atoms`, the atoms each `encode_*_impl`
+    writes through `encode_atom_impl`) and the literal constants of the header writer and reader."""
+    broken = []
+    lines = []
+
+    def strs(xs):
+        return "[" + ", ".join('"' + x + '"' for x in xs) + "]"
+
+    def table(rows):
+        return "[" + ", ".join('("' + a + '", ' + strs(b) + ")" for a, b in rows) + "]"
+
+    enc = read("crates/erltf/src/encoder.rs")
+    dec = read("crates/erltf/src/decoder.rs")
+    arms_out = []
+    sites_out = []
+    consts = {}
+    forms = {}
+    if enc is None:
+        broken.append("encoder.rs missing")
+    else:
+        enc_nc = re.sub(r"//[^\n]*", "", enc)
+        body = _fn_body(enc_nc, r"fn\s+collect_atoms\s*<[^>]*>\s*\(")
+        arms = _match_arms(body, "term") if body is not None else None
+        if not arms:
+            broken.append("collect_atoms: `match term { … }` not found in encoder.rs")
+        else:
+            for pat, text in arms:
+                variants = re.findall(r"OwnedTerm::([A-Za-z]+)", pat)
+                name = "|".join(variants) if variants else re.sub(r"\s+", "", pat)
+                acts = []
+                for m in re.finditer(r"atoms\s*\.\s*insert\s*\(\s*&?\s*([A-Za-z_\.]+)\s*\)|collect_atoms\s*\(\s*&?\s*([A-Za-z_\.]+)\s*,\s*atoms\s*\)", text):
+                    acts.append("insert:" + m.group(1) if m.group(1) else "rec:" + m.group(2))
+                arms_out.append((name, acts))
+        # which atoms each encode function writes through encode_atom_impl (and the pid it delegates)
+        for m in re.finditer(r"\bfn\s+(encode_[a-z_]*impl)\s*(?:<[^>]*>)?\s*\(", enc_nc):
+            fb = _fn_body(enc_nc[m.start():], r"fn\s+" + m.group(1) + r"\s*(?:<[^>]*>)?\s*\(")
+            if fb is None:
+                broken.append("body of " + m.group(1) + " not found")
+                continue
+            if m.group(1) == "encode_atom_impl":
+                continue
+            acts = []
+            for c in re.finditer(r"encode_atom_impl\s*\(\s*[^,]+,\s*([^,]+?)\s*,\s*cache\s*\)|encode_pid_impl\s*\(\s*[^,]+,\s*([^,]+?)\s*,\s*cache\s*\)", fb):
+                if c.group(1):
+                    acts.append("atom:" + re.sub(r"\s+", "", c.group(1)))
+                elif m.group(1) != "encode_term_impl":
+                    acts.append("pid:" + re.sub(r"\s+", "", c.group(2)))
+            if acts:
+                sites_out.append((m.group(1), acts))
+        mb = _fn_body(enc_nc, r"pub\s+fn\s+encode_with_dist_header_multi\s*\(")
+        if mb is None:
+            broken.append("encode_with_dist_header_multi not found in encoder.rs")
+        else:
+            def grab(key, rx, conv=lambda g: num(g[0])):
+                m_ = re.search(rx, mb)
+                if not m_:
+                    broken.append("encode_with_dist_header_multi: pattern for " + key + " not found")
+                else:
+                    consts[key] = conv(m_.groups())
+            grab("C14_ENC_MAX_ATOMS", r"if\s+atom_set\.len\(\)\s*>\s*([0-9_]+)\s*\{\s*return\s+Err\s*\(\s*EncodeError::TooManyAtoms")
+            grab("C14_ENC_LONG_THRESHOLD", r"let\s+long_atoms\s*=\s*atoms\.iter\(\)\.any\(\s*\|a\|\s*a\.name\.len\(\)\s*>\s*([0-9_]+)\s*\)")
+            grab("C14_ENC_NEW_ENTRY_FLAG", r"let\s+new_entry_flag\s*=\s*0x([0-9a-fA-F]+)u8\s*;", lambda g: int(g[0], 16))
+            grab("C14_ENC_LONG_BIT_EVEN", r"let\s+long_atoms_bit\s*=\s*if\s+atoms\.len\(\)\s*%\s*2\s*==\s*0\s*\{\s*0x([0-9a-fA-F]+)\s*\}", lambda g: int(g[0], 16))
+            grab("C14_ENC_LONG_BIT_ODD", r"let\s+long_atoms_bit\s*=\s*if[^{]*\{[^}]*\}\s*else\s*\{\s*0x([0-9a-fA-F]+)\s*\}", lambda g: int(g[0], 16))
+            grab("C14_ENC_NIBBLE_SHIFT_ODD", r"let\s+nibble_shift\s*=\s*if\s+index\s*%\s*2\s*==\s*0\s*\{\s*0\s*\}\s*else\s*\{\s*([0-9]+)\s*\}")
+            m_ = re.search(r"let\s+flags_len\s*=\s*([^;]+);", mb)
+            if not m_:
+                broken.append("encode_with_dist_header_multi: flags_len not found")
+            else:
+                forms["C14_ENC_FLAGS_LEN"] = re.sub(r"\s+", "", m_.group(1))
+            if not re.search(r"a\.name\.len\(\)\s*>\s*u16::MAX\s+as\s+usize", mb):
+                broken.append("encode_with_dist_header_multi: the u16::MAX atom-length check is gone")
+            if not re.search(r"buf\.put_u8\(\s*index\s+as\s+u8\s*\)", mb):
+                broken.append("encode_with_dist_header_multi: internal index is no longer the position (`put_u8(index as u8)`)")
+            if not re.search(r"atom_index_map\.insert\(\s*\*atom\s*,\s*index\s+as\s+u8\s*\)", mb):
+                broken.append("encode_with_dist_header_multi: ATOM_CACHE_REF index is no longer the position")
+    if dec is None:
+        broken.append("decoder.rs missing")
+    else:
+        dec_nc = re.sub(r"//[^\n]*", "", dec)
+        db = _fn_body(dec_nc, r"fn\s+parse_dist_header_with_cache\s*<[^>]*>\s*\(")
+        if db is None:
+            broken.append("parse_dist_header_with_cache not found in decoder.rs")
+        else:
+            def grabd(key, rx, conv=lambda g: int(g[0], 16)):
+                m_ = re.search(rx, db)
+                if not m_:
+                    broken.append("parse_dist_header_with_cache: pattern for " + key + " not found")
+                else:
+                    consts[key] = conv(m_.groups())
+            grabd("C14_DEC_LONG_BIT_EVEN", r"let\s+long_atoms_bit\s*=\s*if\s+num_atom_cache_refs\s*%\s*2\s*==\s*0\s*\{\s*0x([0-9a-fA-F]+)\s*\}")
+            grabd("C14_DEC_LONG_BIT_ODD", r"let\s+long_atoms_bit\s*=\s*if[^{]*\{[^}]*\}\s*else\s*\{\s*0x([0-9a-fA-F]+)\s*\}")
+            grabd("C14_DEC_NIBBLE_MASK", r"flags\[flag_byte_index\]\s*&\s*0x([0-9a-fA-F]+)")
+            grabd("C14_DEC_NIBBLE_SHIFT", r"\(flags\[flag_byte_index\]\s*>>\s*([0-9]+)\)", lambda g: int(g[0]))
+            grabd("C14_DEC_NEW_ENTRY_MASK", r"let\s+is_new_entry\s*=\s*\(flag_nibble\s*&\s*0x([0-9a-fA-F]+)\)\s*!=\s*0")
+            grabd("C14_DEC_SEGMENT_MASK", r"let\s+segment_index\s*=\s*flag_nibble\s*&\s*0x([0-9a-fA-F]+)")
+            m_ = re.search(r"let\s+flags_len\s*=\s*([^;]+);", db)
+            if not m_:
+                broken.append("parse_dist_header_with_cache: flags_len not found")
+            else:
+                forms["C14_DEC_FLAGS_LEN"] = re.sub(r"\s+", "", m_.group(1))
+            if not re.search(r"cache\s*\.\s*slots\s*\.\s*insert\(\s*\(segment_index,\s*internal_segment_index\)", db):
+                broken.append("parse_dist_header_with_cache: the cache is no longer keyed by (segment_index, internal_segment_index)")
+            if not re.search(r"cache\.insert\(\s*i\s*,", db):
+                broken.append("parse_dist_header_with_cache: the position table is no longer keyed by the reference's position")
+
+    lines.append("/-- C14: arms of `collect_atoms` (encoder.rs): variants ↦ what is inserted / traversed, in source order -/")
+    lines.append(f"def COLLECT_ATOMS_ARMS : List (String × List String) := {table(arms_out)}")
+    lines.append("")
+    lines.append("/-- C14: the atoms each `encode_*_impl` writes through `encode_atom_impl` (`atom:`) and the pid it delegates (`pid:`) -/")
+    lines.append(f"def ENCODE_ATOM_SITES : List (String × List String) := {table(sites_out)}")
+    lines.append("")
+    for key in ("C14_ENC_MAX_ATOMS", "C14_ENC_LONG_THRESHOLD", "C14_ENC_NEW_ENTRY_FLAG", "C14_ENC_LONG_BIT_EVEN",
+                "C14_ENC_LONG_BIT_ODD", "C14_ENC_NIBBLE_SHIFT_ODD", "C14_DEC_LONG_BIT_EVEN", "C14_DEC_LONG_BIT_ODD",
+                "C14_DEC_NIBBLE_MASK", "C14_DEC_NIBBLE_SHIFT", "C14_DEC_NEW_ENTRY_MASK", "C14_DEC_SEGMENT_MASK"):
+        lines.append(f"def {key} : Nat := {consts.get(key, 0)}")
+    for key in ("C14_ENC_FLAGS_LEN", "C14_DEC_FLAGS_LEN"):
+        lines.append(f'def {key} : String := "{forms.get(key, "")}"')
+    lines.append("")
+    return lines, broken
+
+
+def _crate_files(read, crate):
+    """source files of a crate: lib.rs and the modules it declares"""
+    lib = read(f"crates/{crate}/src/lib.rs")
+    if lib is None:
+        return None
+    lib = re.sub(r"//[^\n]*", "", lib)
+    mods = re.findall(r"^\s*(?:pub\s+)?mod\s+([a-z_0-9]+)\s*;", lib, re.M)
+    return ["lib.rs"] + [m + ".rs" for m in mods]
+
+
+def gen_c16b(read, num):
+    """C16: every place in edp_client / edp_node that constructs an ExternalPid / ExternalReference, every call of the
+    allocator and of make_reference, every store to a creation."""
+    broken = []
+    lines = []
+
+    def strs(xs):
+        return "[" + ", ".join('"' + x + '"' for x in xs) + "]"
+
+    ctor, alloc_calls, ref_calls, cre_stores = [], [], [], []
+    alloc_new, alloc_writes, raw_uses = [], [], []
+    for crate in ("edp_client", "edp_node"):
+        files = _crate_files(read, crate)
+        if files is None:
+            broken.append(f"crates/{crate}/src/lib.rs missing")
+            continue
+        for f in files:
+            text = read(f"crates/{crate}/src/{f}")
+            if text is None:
+                continue   # a module directory or a cfg'd-out file
+            text = re.sub(r"//[^\n]*", "", text)
+            # cut the unit-test module at the end of a file, if any
+            t = re.search(r"#\[cfg\(test\)\]\s*mod\s+\w+\s*\{", text)
+            if t:
+                text = text[:t.start()]
+            fns = [(m.start(), m.group(1)) for m in re.finditer(r"\bfn\s+([a-z_0-9]+)\s*[<(]", text)]
+
+            def fn_at(pos):
+                name = "?"
+                for p_, n_ in fns:
+                    if p_ < pos:
+                        name = n_
+                return name
+            for m in re.finditer(r"\b(ExternalPid|ExternalReference)\s*(::\s*[a-z_]+\s*\(|\{)", text):
+                # a struct pattern/literal `ExternalPid {` or an associated function call
+                if m.group(2) == "{" and re.search(r"(->|\bfor|\bimpl|\bstruct)\s*$", text[:m.start()]):
+                    continue   # a return type, an impl header or the definition, not a literal/pattern
+                what = m.group(1) + ("::" + re.sub(r"[\s:(]", "", m.group(2)) if m.group(2) != "{" else "{}")
+                ctor.append(f"{crate}/{f}:{fn_at(m.start())}:{what}")
+            for m in re.finditer(r"\.\s*allocate\s*\(\s*\)", text):
+                alloc_calls.append(f"{crate}/{f}:{fn_at(m.start())}")
+            for m in re.finditer(r"\.\s*make_reference\s*\(\s*\)", text):
+                ref_calls.append(f"{crate}/{f}:{fn_at(m.start())}")
+            for m in re.finditer(r"\bcreation\s*\.\s*(store|swap|fetch_add|fetch_update|compare_exchange)\s*\(|\.\s*(set_creation)\s*\(", text):
+                cre_stores.append(f"{crate}/{f}:{fn_at(m.start())}:{m.group(1) or m.group(2)}")
+            # the allocator itself: every place that builds one, every write to a field that holds one, every use of the
+            # accessors that hand out the raw counters
+            for m in re.finditer(r"\bPidAllocator\s*::\s*new\s*\(", text):
+                alloc_new.append(f"{crate}/{f}:{fn_at(m.start())}")
+            for m in re.finditer(r"\bpid_allocator\s*(=(?!=)|,|:(?!:))", text):
+                kind = {"=": "assign", ",": "init", ":": "init"}[m.group(1)[0]]
+                if kind == "init" and re.search(r"\bpid_allocator\s*:\s*Arc\s*<", text[m.start():m.start() + 40]):
+                    continue   # the field's declaration
+                if kind == "assign" and re.search(r"\blet\s+(mut\s+)?$", text[:m.start()]):
+                    kind = "let"   # a local binding, not a write to the field
+                alloc_writes.append(f"{crate}/{f}:{fn_at(m.start())}:{kind}")
+            for m in re.finditer(r"\.\s*(next_id_test_only|next_serial_test_only)\s*\(", text):
+                raw_uses.append(f"{crate}/{f}:{fn_at(m.start())}:{m.group(1)}")
+    node = read("crates/edp_node/src/node.rs")
+    if node is not None:
+        if not re.search(r"pub\s+async\s+fn\s+start\s*\(\s*&mut\s+self", node):
+            broken.append("Node::start no longer takes `&mut self` (exclusive access while the creation changes)")
+        if not re.search(r"if\s+self\.started\.swap\(\s*true\s*,", node):
+            broken.append("Node::start no longer refuses a second start (`started.swap(true, …)`)")
+        if not re.search(r"let\s+creation\s*=\s*1\s*;\s*let\s+pid_allocator\s*=\s*Arc::new\(PidAllocator::new\(name_atom\.clone\(\),\s*creation\)\);\s*let\s+creation\s*=\s*Arc::new\(AtomicU32::new\(creation\)\);", re.sub(r"\s+", " ", node)):
+            broken.append("Node: allocator and node no longer start from the same creation 1")
+    lines.append("/-- C16: every construction of an ExternalPid / ExternalReference in edp_client and edp_node (tests cut), as `crate/file:function:what` -/")
+    lines.append(f"def ID_CONSTRUCTOR_SITES : List String := {strs(ctor)}")
+    lines.append("/-- C16: every call of `PidAllocator::allocate` -/")
+    lines.append(f"def ALLOCATE_CALL_SITES : List String := {strs(alloc_calls)}")
+    lines.append("/-- C16: every call of `Node::make_reference` -/")
+    lines.append(f"def MAKE_REFERENCE_CALL_SITES : List String := {strs(ref_calls)}")
+    lines.append("/-- C16: every store to a `creation` (the node's or the allocator's) -/")
+    lines.append(f"def CREATION_STORE_SITES : List String := {strs(cre_stores)}")
+    lines.append("/-- C16: every `PidAllocator::new(` in edp_client and edp_node (tests cut) -/")
+    lines.append(f"def PID_ALLOCATOR_NEW_SITES : List String := {strs(alloc_new)}")
+    lines.append("/-- C16: every write to a `pid_allocator` field: assignment or struct-literal initialiser -/")
+    lines.append(f"def PID_ALLOCATOR_FIELD_WRITES : List String := {strs(alloc_writes)}")
+    lines.append("/-- C16: every use of the `*_test_only` accessors (raw counters) outside tests -/")
+    lines.append(f"def RAW_COUNTER_ACCESSOR_USES : List String := {strs(raw_uses)}")
+    lines.append("")
+    return lines, broken
+
+
 def run(read, emit, num):
     body = "namespace Edp.Gen\n\n"
     broken = []
-    for part in (gen_c16, gen_c09, gen_c04, gen_c15, gen_c13, gen_c18, gen_c19, gen_state, gen_c20, gen_c05, gen_c08, gen_c10, gen_c11):
+    for part in (gen_c16, gen_c09, gen_c04, gen_c15, gen_c13, gen_c18, gen_c19, gen_state, gen_c20, gen_c05, gen_c08, gen_c10, gen_c11, gen_c07, gen_c14, gen_c16b):
         ls, br = part(read, num)
         body += "\n".join(ls) + "\n"
         broken += br
